@@ -59,6 +59,10 @@ def run(ctx):
         b0 = ctx.rng.choice([0.0, 0.1, 0.5])
         b1 = ctx.rng.choice([b0 + 0.05, b0 + 0.3, 1.0])
         size = ctx.rng.choice([None, None, n, 2 * n, max(1, n // 2), 1])
+        if rep % 6 == 5:
+            # no temperature move, only a change of size (what the final enlargement does at beta = 1): every particle has the same
+            # incremental weight, so the draw is uniform over ALL particles
+            b1, size = b0, ctx.rng.choice([2 * n, max(1, n // 2), n + 3])
         m = n if size is None else size
         style = ctx.rng.choice(["random", "same", "perm", "reverse"])
         if style == "same":
